@@ -32,7 +32,7 @@ fn info(tier: Tier) -> CheckInfo {
         id: "C08",
         level: "model_checking",
         rule: format!(
-            "Tier {}: one real writer (client mode) and N scripted storing endpoints, N in {}; each endpoint independently {{issues no token | acks | answers 203 | 205 | 301 | 302 | 201 | stays silent | acks after the request expired | has gone read-only and flags its ack ro=1}} - every assignment, every arrival order of the replies (distinct latencies 10/60/110 ms permuted), all four put kinds (immutable, mutable, announce_peer, announce_signed_peer) through the public put API; plus replica sets of 255/256/257/300 addressed nodes through extra_nodes with all-ack, one-ack, all-301 and half-301-half-ack, and extra_nodes mixing a token holder with a token-less node. Oracle from the network log: Ok <=> an ack was delivered before its request expired (a majority of 301/302 on a mutable put may pre-empt it); a concurrency error only if 301/302 was really answered; otherwise a query error; writes go exactly to the endpoints that issued a token in this lookup, each with its own token. Every execution runs the real node; states = distinct world digests.",
+            "Tier {}: one real writer (client mode) and N scripted storing endpoints, N in {}; each endpoint independently {{issues no token | acks | answers 203 | 205 | 301 | 302 | 201 | stays silent | acks after the request expired | has gone read-only and flags its ack ro=1}} - every assignment, every arrival order of the replies (distinct latencies 10/60/110 ms permuted), all four put kinds (immutable, mutable, announce_peer, announce_signed_peer) through the public put API; plus replica sets of 255/256/257/300 addressed nodes through extra_nodes with all-ack, one-ack, all-301 and half-301-half-ack, extra_nodes mixing a token holder with a token-less node; and two overlapping writes to one target with different payloads (announce_peer with two ports; announce_peer + announce_signed_peer), the second queued before every network event of the first call's lifetime, all storers acknowledging: a call may return Ok only if a storer received that call's own payload. Oracle from the network log: Ok <=> an ack was delivered before its request expired (a majority of 301/302 on a mutable put may pre-empt it); a concurrency error only if 301/302 was really answered; otherwise a query error; writes go exactly to the endpoints that issued a token in this lookup, each with its own token. Every execution runs the real node; states = distinct world digests.",
             tier.name(),
             if tier.is_quick() { "{1,2,3}" } else { "{1,2,3,4}" }
         ),
@@ -307,6 +307,99 @@ fn judge(kind: usize, behs: &[Beh], order: usize, o: &Out, out: &mut Partial) {
     }
 }
 
+/// Two overlapping writes to ONE target with different payloads (two announce_peer calls with
+/// different ports; announce_peer and announce_signed_peer for one info hash), the second placed
+/// before every network event of the first one's lifetime. All storers acknowledge everything,
+/// so each call may only report Ok if a storer received - and acknowledged - that call's own
+/// payload. Returns the number of network events of the first call's lifetime.
+fn overlap(pair: usize, at_event: Option<u32>, out: &mut Partial) -> u32 {
+    let mut w = World::new(Chooser::default_run());
+    let target: Id20 = [0x3C; 20];
+    let ids = crate::epnet::ranked_ids(&target, 2);
+    let mut net = EpNet::new(&mut w, &ids);
+    let eps = net.addrs();
+    let a = w.add_node(NodeCfg::new([9, 9, 9, 9], 7000).bootstrap(&eps[..1]).id([0x21; 20]));
+    let a_addr = w.node_addr(a);
+    let h = w.now + 3 * SEC;
+    w.run_until(h, |w, ev| {
+        if let Event::EndpointRecv { ep, dgram } = ev {
+            net.handle(w, *ep, dgram);
+        }
+        false
+    });
+    let first = PutRequestSpecific::AnnouncePeer(AnnouncePeerRequestArguments { info_hash: target.into(), port: 1111, implied_port: None });
+    let second = if pair == 0 {
+        PutRequestSpecific::AnnouncePeer(AnnouncePeerRequestArguments { info_hash: target.into(), port: 2222, implied_port: None })
+    } else {
+        let sk = krpc::signing_key(9);
+        let ann = SignedAnnounce::new(&sk, &target.into());
+        PutRequestSpecific::AnnounceSignedPeer(AnnounceSignedPeerRequestArguments { info_hash: target.into(), t: ann.timestamp(), k: *ann.key(), sig: *ann.signature() })
+    };
+    let c1 = w.call_put_raw(a, first, None);
+    let mut c2: Option<usize> = None;
+    let mut second = Some(second);
+    if at_event == Some(0) {
+        c2 = Some(w.call_put_raw(a, second.take().expect("second"), None));
+    }
+    let mut events = 0u32;
+    let mut first_events = 0u32;
+    let h = w.now + 60 * SEC;
+    w.run_until(h, |w, ev| {
+        if let Event::EndpointRecv { ep, dgram } = ev {
+            net.handle(w, *ep, dgram);
+        }
+        if matches!(ev, Event::EndpointRecv { .. } | Event::Arrived { .. }) {
+            events += 1;
+            if w.result(c1).is_none() {
+                first_events = events;
+            }
+            if Some(events) == at_event && second.is_some() {
+                c2 = Some(w.call_put_raw(a, second.take().expect("second"), None));
+            }
+        }
+        w.result(c1).is_some() && (at_event.is_none() || c2.map(|c| w.result(c).is_some()).unwrap_or(false))
+    });
+    out.add("executions", 1);
+    out.add("transitions", w.steps);
+    let Some(at) = at_event else { return first_events };
+    let Some(c2) = c2 else { return first_events };
+    out.add("overlapping_pairs", 1);
+    let names = ["announce_peer(port 1111)", if pair == 0 { "announce_peer(port 2222)" } else { "announce_signed_peer" }];
+    // which payloads did the storers receive (and acknowledge: they acknowledge everything)?
+    let got = |port: Option<i128>, q: &str| net.eps.iter().any(|e| e.puts.iter().any(|p| p.from == a_addr && p.q == q && (port.is_none() || p.raw.arg("port").and_then(|x| x.as_int()) == port)));
+    let received = [got(Some(1111), "announce_peer"), if pair == 0 { got(Some(2222), "announce_peer") } else { got(None, "announce_signed_peer") }];
+    for (i, c) in [c1, c2].iter().enumerate() {
+        let replay = json!({"part": "overlap", "pair": pair, "at_event": at});
+        match w.result(*c) {
+            Some(CallResult::Put(Ok(_))) => {
+                out.add("ok_results", 1);
+                if !received[i] {
+                    out.violation(
+                        format!("overlap/ok-without-own-write/{}/{}", if i == 0 { "first" } else { "second" }, if pair == 0 { "announce_peer+announce_peer" } else { "announce_peer+announce_signed_peer" }),
+                        format!("{} then {} (queued before network event #{at} of the first): the {} call returned Ok but no storer ever received its payload", names[0], names[1], if i == 0 { "first" } else { "second" }),
+                        replay,
+                    );
+                }
+            }
+            Some(CallResult::Put(Err(e))) => {
+                out.add("err_results", 1);
+                if received[i] {
+                    out.violation(
+                        format!("overlap/error-despite-ack/{}/{}", if i == 0 { "first" } else { "second" }, if pair == 0 { "announce_peer+announce_peer" } else { "announce_peer+announce_signed_peer" }),
+                        format!("{} then {} (queued before network event #{at} of the first): the {} call returned {e:?} although storers received and acknowledged its payload", names[0], names[1], if i == 0 { "first" } else { "second" }),
+                        replay,
+                    );
+                }
+            }
+            other => out.violation("overlap/no-result".to_string(), format!("{} then {} (placement {at}): {other:?}", names[0], names[1]), replay),
+        }
+    }
+    if w.any_actor_panicked().is_some() {
+        out.violation("actor-died/overlap".to_string(), "actor thread died".to_string(), json!({"part": "overlap", "pair": pair, "at_event": at}));
+    }
+    first_events
+}
+
 /// extra_nodes mixing a node that carries a token with one that does not (e.g. taken from a
 /// find_node result): only the token holder may be written to.
 fn extra_mix(kind: usize, out: &mut Partial) {
@@ -492,6 +585,15 @@ fn run(tier: Tier, shard: usize, nshards: usize, _seed: u64) -> Partial {
             extra_mix(kind, &mut out);
         }
     }
+    for pair in 0..2usize {
+        if pair % nshards != shard {
+            continue;
+        }
+        let n = overlap(pair, None, &mut out);
+        for at in 0..=n {
+            overlap(pair, Some(at), &mut out);
+        }
+    }
     out.witness("a put returned Ok", out.count("ok_results") > 0);
     out.witness("a put returned an error", out.count("err_results") > 0);
     out.sample(json!({"kind": "mutable", "endpoints": ["ack", "e301", "e301"], "arrival_order": 2, "oracle": "Ok or (majority 301 => CasFailed)"}));
@@ -514,6 +616,8 @@ fn replay(v: &Value) -> Result<Option<Violation>, String> {
     let mut out = Partial::default();
     if v.get("part").and_then(|p| p.as_str()) == Some("extra") {
         extra_mix(v.get("kind").and_then(|x| x.as_u64()).ok_or("kind")? as usize, &mut out);
+    } else if v.get("part").and_then(|p| p.as_str()) == Some("overlap") {
+        overlap(v.get("pair").and_then(|x| x.as_u64()).ok_or("pair")? as usize, Some(v.get("at_event").and_then(|x| x.as_u64()).ok_or("at_event")? as u32), &mut out);
     } else if v.get("part").and_then(|p| p.as_str()) == Some("big") {
         big(v.get("total").and_then(|x| x.as_u64()).ok_or("total")? as usize, v.get("pattern").and_then(|x| x.as_u64()).ok_or("pattern")? as usize, &mut out);
     } else {
